@@ -38,16 +38,15 @@ theorem d1_mono {p lo hi Lo Hi : Rat} (h1 : Lo ≤ lo) (h2 : hi ≤ Hi) (hv : lo
     d1 p Lo Hi ≤ d1 p lo hi := by
   unfold d1; split_ifs <;> (try unfold sq) <;> nlinarith
 
-/-- the far end of `[Lo,Hi]` seen from `p` is at least as far as any point of the interval -/
+/-- the face of `[Lo,Hi]` that is farther from `p` (told by comparing the two distances, as the
+repaired `minMaxDist` does) is at least as far as any point of the interval -/
 theorem far_end {p Lo Hi c : Rat} (h1 : Lo ≤ c) (h2 : c ≤ Hi) :
-    sq (p - c) ≤ sq (p - (if p ≥ (Lo + Hi) / 2 then Lo else Hi)) := by
-  split_ifs with h
-  · unfold sq; nlinarith
-  · simp only [ge_iff_le, not_le] at h
-    unfold sq; nlinarith
+    sq (p - c) ≤ sq (p - (if ratAbs (p - Lo) ≥ ratAbs (p - Hi) then Lo else Hi)) := by
+  unfold ratAbs
+  split_ifs with h3 h4 h5 h6 h7 <;> unfold sq <;> nlinarith
 
 theorem d1_le_far {p lo hi Lo Hi : Rat} (h1 : Lo ≤ lo) (h2 : hi ≤ Hi) (hv : lo ≤ hi) :
-    d1 p lo hi ≤ sq (p - (if p ≥ (Lo + Hi) / 2 then Lo else Hi)) :=
+    d1 p lo hi ≤ sq (p - (if ratAbs (p - Lo) ≥ ratAbs (p - Hi) then Lo else Hi)) :=
   (d1_le_point (le_refl lo) hv).trans (far_end h1 (hv.trans h2))
 
 theorem valid_iff (b : Box) : b.valid = true ↔ b.minX ≤ b.maxX ∧ b.minY ≤ b.maxY := by
@@ -84,10 +83,10 @@ theorem minDist_mono (px py : Rat) {b x : Box} (hc : b.minX ≤ x.minX ∧ b.min
 
 theorem minMaxDist_eq (px py : Rat) (r : Box) :
     minMaxDist px py r =
-      (let rmX := if px ≤ (r.minX + r.maxX) / 2 then r.minX else r.maxX
-       let rmY := if py ≤ (r.minY + r.maxY) / 2 then r.minY else r.maxY
-       let rMX := if px ≥ (r.minX + r.maxX) / 2 then r.minX else r.maxX
-       let rMY := if py ≥ (r.minY + r.maxY) / 2 then r.minY else r.maxY
+      (let rmX := if ratAbs (px - r.minX) ≤ ratAbs (px - r.maxX) then r.minX else r.maxX
+       let rmY := if ratAbs (py - r.minY) ≤ ratAbs (py - r.maxY) then r.minY else r.maxY
+       let rMX := if ratAbs (px - r.minX) ≥ ratAbs (px - r.maxX) then r.minX else r.maxX
+       let rMY := if ratAbs (py - r.minY) ≥ ratAbs (py - r.maxY) then r.minY else r.maxY
        let dx := sq (px - rmX) + sq (py - rMY)
        let dy := sq (px - rMX) + sq (py - rmY)
        if dy < dx then dy else dx) := by
@@ -104,9 +103,9 @@ theorem minMaxDist_spec (px py : Rat) {b : Box} {bs : List Box} (henv : IsEnv b 
   obtain ⟨_, hlo, ⟨xa, hxa, exa⟩, ⟨ya, hya, eya⟩, ⟨xb, hxb, exb⟩, ⟨yb, hyb, eyb⟩⟩ := henv
   -- x-face case: box touching the nearer x-face
   have hX : ∃ x ∈ bs, minDist px py x ≤
-      sq (px - (if px ≤ (b.minX + b.maxX) / 2 then b.minX else b.maxX)) +
-      sq (py - (if py ≥ (b.minY + b.maxY) / 2 then b.minY else b.maxY)) := by
-    by_cases hc : px ≤ (b.minX + b.maxX) / 2
+      sq (px - (if ratAbs (px - b.minX) ≤ ratAbs (px - b.maxX) then b.minX else b.maxX)) +
+      sq (py - (if ratAbs (py - b.minY) ≥ ratAbs (py - b.maxY) then b.minY else b.maxY)) := by
+    by_cases hc : ratAbs (px - b.minX) ≤ ratAbs (px - b.maxX)
     · refine ⟨xa, hxa, ?_⟩
       have v := (valid_iff _).mp (hv xa hxa)
       obtain ⟨l1, l2, l3, l4⟩ := hlo xa hxa
@@ -124,9 +123,9 @@ theorem minMaxDist_spec (px py : Rat) {b : Box} {bs : List Box} (henv : IsEnv b 
       have b' := d1_le_far (p := py) l2 l4 v.2
       linarith
   have hY : ∃ x ∈ bs, minDist px py x ≤
-      sq (px - (if px ≥ (b.minX + b.maxX) / 2 then b.minX else b.maxX)) +
-      sq (py - (if py ≤ (b.minY + b.maxY) / 2 then b.minY else b.maxY)) := by
-    by_cases hc : py ≤ (b.minY + b.maxY) / 2
+      sq (px - (if ratAbs (px - b.minX) ≥ ratAbs (px - b.maxX) then b.minX else b.maxX)) +
+      sq (py - (if ratAbs (py - b.minY) ≤ ratAbs (py - b.maxY) then b.minY else b.maxY)) := by
+    by_cases hc : ratAbs (py - b.minY) ≤ ratAbs (py - b.maxY)
     · refine ⟨ya, hya, ?_⟩
       have v := (valid_iff _).mp (hv ya hya)
       obtain ⟨l1, l2, l3, l4⟩ := hlo ya hya
